@@ -122,7 +122,10 @@ def job_fresh(job):
         variants.append(("nooutdir", dict(inp=os.path.join(cpy, main), out=None, quiet=True, cwd=d, seed=0, outabs=cpy)))
         pick = job.get("variants")
         if pick is not None:
-            variants = [(n, v) for n, v in variants if n in pick or n.startswith("seed")]
+            only = job.get("variant_targets")        # path variants on these target indexes only (None: all)
+            ti = len(res["targets"])
+            variants = [(n, v) for n, v in variants
+                        if n.startswith("seed") or (n in pick and (only is None or ti in only))]
         for vname, v in variants:
             # nooutdir writes next to the source: clear earlier outputs of other targets first
             if v["out"] is None:
